@@ -120,7 +120,7 @@ def parse_vspec(path):
                 else:
                     raise SpecError(f'{path}:{i+1}: bad token {rest[k]}')
             u.parts.append(('item', it)); cur_item = it; i += 1
-        elif d in ('@sig', '@loop', '@loopend', '@before', '@after', '@closure', '@closure?', '@ret', '@tail', '@head', '@drop', '@split_or_arm', '@idiom', '@idiom?', '@dropstmt', '@relift', '@tryforeach', '@attr', '@hoist', '@loophead', '@implspec'):
+        elif d in ('@sig', '@loop', '@loopend', '@before', '@after', '@closure', '@closure?', '@ret', '@tail', '@head', '@drop', '@split_or_arm', '@idiom', '@idiom?', '@dropstmt', '@relift', '@tryforeach', '@attr', '@hoist', '@loophead', '@implspec', '@inarm'):
             if cur_item is None: raise SpecError(f'{path}:{i+1}: {d} outside @item')
             a = Ann(kind=d[1:].rstrip('?'), line=i + 1)
             if d.endswith('?'): a.opts['optional'] = '1'   # anchor may be absent (code before/after a fix)
@@ -133,10 +133,12 @@ def parse_vspec(path):
                 for p in ps[1:]:
                     kk, vv = p.split('='); a.opts[kk] = vv
                 a.text, i = take_block(i + 1)
-            elif d in ('@before', '@after', '@drop', '@dropstmt', '@split_or_arm', '@attr'):
+            elif d in ('@before', '@after', '@inarm', '@drop', '@dropstmt', '@split_or_arm', '@attr'):
                 m = re.match(r'<<(.*)>>\s*$', rest)
                 if not m: raise SpecError(f'{path}:{i+1}: {d} needs <<anchor>>')
                 a.arg = m.group(1)
+                if d in ('@before', '@after', '@inarm') and '\\n' in a.arg:
+                    a.arg = a.arg.replace('\\n', '\n')   # `\n` in a hint anchor = line break: anchors may span lines (disambiguation)
                 if d == '@attr' and a.arg not in ALLOWED_FN_ATTRS:
                     raise SpecError(f'{path}:{i+1}: @attr {a.arg} is not a whitelisted proof-mode attribute')
                 if d in ('@drop', '@dropstmt', '@split_or_arm', '@attr'):
@@ -687,6 +689,60 @@ def apply_refpat(tx, ct, lo, hi, inserts, mk):
             inserts.append(mk(ct[ob].end, ''.join(f' let {n} = *__ref_{n};' for n in names)))
 
 
+def apply_pollfn_await(tx, ct, lo, hi, fxname, fxcalls):
+    """R30 (`poll_fn(|cx| BODY).await` as one successful poll): with `pollfn=1` (needs `fx=`) the expression becomes
+        ({ await_suspend(FX); let mut __cx = await_cx(); let cx = &mut __cx;
+           match BODY { Poll::Ready(__v) => __v, Poll::Pending => await_pending_forever() } })
+    `std::future::poll_fn(f).await` calls f each time the task is polled and completes with v as soon as f answers Ready(v); between
+    two calls the task is suspended.  The rewrite describes a *returning* await: everything before the last call of f -- earlier
+    calls that answered Pending, with their effects, and whatever other tasks did meanwhile -- is the ASSUMED stub
+    `await_suspend(FX)` (it may change the effect state arbitrarily within its stated invariants); the last call is BODY itself,
+    verified as it stands; an answer Pending there means the await has not finished: `await_pending_forever()` never returns
+    (`loop {}`), which is partial correctness, not an assumption.  Needed because Verus rejects closures that capture `&mut`
+    state, which BODY does once the thread-local is an explicit parameter (R27).  BODY must not contain closure-level
+    `return`/`?`.  Also: `.await` directly after a call `NAME(..)` with NAME in fxcalls is dropped -- the callee is an async fn
+    of this unit that is itself verified as a blocking fn taking FX."""
+    n_done = 0
+    k = lo
+    while k < hi:
+        t = ct[k]
+        if (t.kind == 'id' and t.text == 'poll_fn' and ct[k - 1].text != '.' and ct[k + 1].text == '(' and ct[k + 2].text == '|'
+                and ct[k + 3].kind == 'id' and ct[k + 4].text == '|'):
+            close = rl.match_close(ct, k + 1)
+            if not (ct[close + 1].text == '.' and ct[close + 2].kind == 'id' and ct[close + 2].text == 'await'):
+                raise SpecError(f'UNSUPPORTED: {tx.rel}: poll_fn(..) is not awaited in place; R30 not applicable')
+            depth = 0
+            for q in range(k + 5, close):
+                if ct[q].text == '|' and ct[q - 1].text in ('(', ',', '=', 'move', '{', ';'):
+                    depth += 1
+                if depth == 0 and ((ct[q].kind == 'id' and ct[q].text == 'return')
+                                   or (ct[q].text == '?' and (ct[q - 1].kind in ('id', 'num') or ct[q - 1].text in (')', ']', '}')))):
+                    raise SpecError(f'UNSUPPORTED: {tx.rel}: poll_fn closure contains return/?; R30 not applicable')
+            cxn = ct[k + 3].text
+            tx.edit(ct[k].start, ct[k + 4].end,
+                    f'({{ await_suspend({fxname}); let mut __cx = await_cx(); let {cxn} = &mut __cx; match', 'R30',
+                    'poll_fn(|cx| BODY).await read as: suspension (assumed stub), then one poll that answers Ready')
+            tx.edit(ct[close].start, ct[close + 2].end, ' { Poll::Ready(__v) => __v, Poll::Pending => await_pending_forever() } })', 'R30',
+                    'end of the poll: Ready(v) => v, Pending => keep waiting (never returns)')
+            n_done += 1
+            k = k + 5; continue
+        if (t.kind == 'id' and t.text == 'await' and ct[k - 1].text == '.' and ct[k - 2].text == ')'):
+            # `.await` on a call of an fx callee of this unit (verified as a blocking fn): drop it
+            op = k - 2; depth = 0
+            while op > lo:
+                if ct[op].text == ')': depth += 1
+                elif ct[op].text == '(':
+                    depth -= 1
+                    if depth == 0: break
+                op -= 1
+            if ct[op - 1].kind == 'id' and ct[op - 1].text in fxcalls:
+                tx.edit(ct[k - 1].start, ct[k].end, '', 'R30', f'.await on {ct[op - 1].text}(..) dropped: the callee is verified as a blocking fn taking {fxname}')
+                n_done += 1
+        k += 1
+    if n_done == 0:
+        raise SpecError(f'LOST-ANCHOR: {tx.rel}: pollfn=1 given but no poll_fn(|cx| ..).await / fx-callee .await found')
+
+
 def apply_tl_accessor_inline(tx, ct, lo, hi, accessor, fxname):
     """R27 (thread-local accessor made explicit): `ACCESSOR(|x| BODY)` ==> `{ BODY }` when x is the name of the fn's first
     effect-state parameter (`fx=x:T`).  For an accessor of the shape `fn sys<R>(f: impl FnOnce(&mut T) -> R) -> R { TL.with(|c| f(&mut
@@ -1037,6 +1093,11 @@ class Gen:
             imp_header = re.sub(r'\b%s\b' % re.escape(imp.self_type), it.opts['self'], imp_header)
             tyname = it.opts['self']
             tx.log.append({'rule': 'R7', 'at': f'{it.file}:{rl.line_of(src, imp.decl_start)}', 'text': imp.header, 'note': f'impl self type renamed to {tyname}'})
+        if imp and imp.trait_name and it.opts.get('trait'):
+            # trait=NAME: the impl header names another contract trait (a source trait with several methods is split into one
+            # contract trait per method in @spec, because every extracted method gets its own `impl` block)
+            imp_header = re.sub(r'\b%s\b' % re.escape(imp.trait_name), it.opts['trait'], imp_header, count=1)
+            tx.log.append({'rule': 'R7', 'at': f'{it.file}:{rl.line_of(src, imp.decl_start)}', 'text': imp.header, 'note': f'impl trait renamed to {it.opts["trait"]}'})
         fkey = f'{tyname}::{item.name}' if imp else item.name
         if it.as_name:
             fkey = it.as_name
@@ -1271,6 +1332,26 @@ class Gen:
                 if a.kind == 'after':
                     pos += len(a.arg)
                 pending_inserts.append((pos, '\n' + a.text.rstrip() + '\n', a.kind))
+            elif a.kind == 'inarm':
+                # `@inarm <<text at the start of an arm's expression>>`: hint text for an expression-bodied match arm `P => E,`,
+                # where no statement position exists: `P => { TEXT E },` (R3; a block around an expression means the same).
+                # E ends at the first `,` at nesting depth 0 or at the `}` that closes the match.  A lost anchor degrades.
+                body_s, body_e = ct[fp['bopen']].end, ct[fp['bclose']].start
+                body = src[body_s:body_e]
+                if body.count(a.arg) != 1:
+                    self.degraded.setdefault(region, []).append(f'inarm <<{a.arg}>> occurs {body.count(a.arg)} times')
+                    continue
+                pos = body_s + body.index(a.arg)
+                q = next(i_ for i_, t_ in enumerate(ct) if t_.start >= pos)
+                if not (ct[q - 1].text == '>' and ct[q - 2].text == '='):
+                    raise SpecError(f'LOST-ANCHOR: {region}: @inarm <<{a.arg}>> does not start the expression of a match arm')
+                e_ = q
+                while True:
+                    if ct[e_].kind == 'punct' and ct[e_].text in rl.OPEN: e_ = rl.match_close(ct, e_) + 1; continue
+                    if ct[e_].kind == 'punct' and ct[e_].text in (',', '}'): break
+                    e_ += 1
+                pending_inserts.append((ct[q].start, '{\n' + a.text.rstrip() + '\n', 'inarm'))
+                pending_inserts.append((ct[e_ - 1].end, ' }', 'inarm'))
             elif a.kind == 'tail':
                 pending_inserts.append((ct[fp['bclose']].start, '\n' + a.text.rstrip() + '\n', 'tail'))
             elif a.kind == 'head':
@@ -1402,6 +1483,15 @@ class Gen:
                     tx.edit(ct[k].start, ct[k + 3].end, '', 'R23', 'Pin erased (T: Unpin): Pin::new(E) => (E)')
                     k += 4; continue
                 k += 1
+        if ct[fp['popen'] + 1].text == 'mut' and ct[fp['popen'] + 2].text == 'self' and ct[fp['popen'] + 3].text in (',', ')'):
+            # R29 (automatic): `fn f(mut self, ..) { B }` => `fn f(self, ..) { let mut __self = self; B[self := __self] }`.
+            # A `mut` binding mode on a by-value parameter is exactly a mutable local initialised from the argument;
+            # Verus rejects the `mut self` spelling ("does not yet support: mut self").
+            tx.edit(ct[fp['popen'] + 1].start, ct[fp['popen'] + 2].start, '', 'R29', '`mut self` receiver rebound as a mutable local')
+            pending_inserts.append((ct[fp['bopen']].end, ' let mut __self = self;', 'R29'))
+            for k in range(fp['bopen'] + 1, fp['bclose']):
+                if ct[k].kind == 'id' and ct[k].text == 'self':
+                    tx.edit(ct[k].start, ct[k].end, '__self', 'R29', 'self => __self')
         if it.opts.get('mutself'):
             # R13b: interior mutability made explicit: `&self` receiver becomes `&mut self`
             for k in range(fp['popen'], fp['pclose']):
@@ -1425,6 +1515,12 @@ class Gen:
                         tx.edit(ct[k].start, ct[k].end, f'await_model({fxname})', 'R24', 'await modelled as a blocking call with an assumed contract')
             apply_fx(tx, ct, fp['bopen'], body_hi, fxname, it.opts.get('fxcalls', '').split(','), pending_inserts,
                      lambda pos, text: (pos, text, 'R13'), bare=bool(it.opts.get('fxbare')))
+        if it.opts.get('pollfn'):
+            # pollfn=1 (with fx=): R30 on every `poll_fn(|cx| BODY).await` of the fn
+            if not it.opts.get('fx'):
+                raise SpecError(f'{region}: pollfn= needs fx=')
+            apply_pollfn_await(tx, ct, fp['bopen'], body_hi, it.opts['fx'].split('+')[0].split(':', 1)[0],
+                               [x for x in it.opts.get('fxcalls', '').split(',') if x])
         if it.opts.get('tlin'):
             # tlin=sys (with fx=k:Kernel): R27 on every `sys(|k| BODY)` of the fn
             if not it.opts.get('fx'):
@@ -1646,7 +1742,7 @@ class Gen:
                     if k is None or tx.ct[k].text != '(':
                         ok = False; break
                     pos = tx.ct[rl.match_close(tx.ct, k)].end - tx.start
-                    m1 = re.compile(r'\s*' + mkpat(piece)).match(s_all, pos)
+                    m1 = re.compile((r'\s*' if piece.strip() else '') + mkpat(piece)).match(s_all, pos)   # an empty tail must not swallow the whitespace after `)`
                     if not m1:
                         ok = False; break
                     pos = m1.end()
@@ -1730,6 +1826,9 @@ class Gen:
             cparam = src[ct[k + 2].start:ct[j].start].strip()
             body_s, body_e = ct[j].end, ct[close].start
         body = src[body_s:body_e].strip()
+        if body.startswith('->') and '{' in body:
+            # closure with an explicit return type `|x| -> T { .. }`: the type is given by ret= on the lift item
+            body = body[body.index('{'):]
         if not body.startswith('{'):
             body = '{ ' + body + ' }'
         name = it.as_name or (item.name + f'_closure{nth}')
